@@ -888,7 +888,15 @@ class HandHistory(Iterable[State]):
                 elif actions and state.can_fold():
                     state.fold()
                 elif state.status and state.can_show_or_muck_hole_cards(()):
-                    state.show_or_muck_hole_cards(())
+                    assert state.showdown_index is not None
+
+                    if (
+                            all(state.hole_cards[state.showdown_index])
+                            and state.can_show_or_muck_hole_cards()
+                    ):
+                        state.show_or_muck_hole_cards()
+                    else:
+                        state.show_or_muck_hole_cards(())
                 elif state.can_select_runout_count():
                     state.select_runout_count()
                 elif state.can_kill_hand():
